@@ -5,6 +5,7 @@ mod engine_a;
 mod engine_b;
 mod engine_c;
 mod props_d;
+mod props_e;
 mod pool;
 mod props_a;
 mod props_c08;
@@ -51,6 +52,7 @@ fn main() {
                 "C02" => props_a::c02(tier, seed),
                 "C03" => engine_c::c03(tier, seed),
                 "C16" => engine_c::c16(tier, seed),
+                "C04" => props_d::c04(tier, seed),
                 "C05" => props_a::c05(tier, seed),
                 "C06" => props_a::c06(tier, seed),
                 "C08" => props_c08::c08(tier, seed),
@@ -76,6 +78,7 @@ fn main() {
                     let code = match r.engine.as_str() {
                         "A" => engine_a::replay(&r.config, &r.case),
                         "B" => engine_b::replay(&r.config, &r.case),
+                        "C04" => props_d::replay_c04(&r.config),
                         "C03" => engine_c::replay_c03(&r.config, &r.case),
                         "C16" => engine_c::replay_c16(&r.config, &r.case),
                         "C18" => engine_c::replay_c18(&r.config, &r.case),
